@@ -489,12 +489,50 @@ def run_shared(ctx):
     r.sample({'shared_precedents': ['An = A(n-1)+A(n-1)*0.05', 'Cn = IF(C(n-1)>0,C(n-1)+An,0)', 'Bn = B(n-1)+B(n-2)', '4-column lattice']})
 
 
+def run_deepchain(ctx):
+    """a running total down a column (Cn = C(n-1)+An): the slice for its last row against the whole-file translation.  60 rows must work;
+    250 rows work in whole-file mode, and the entry-point translation either agrees or shows the recorded finding (it descends through the
+    precedents recursively and refuses "nested too deeply" where the whole-file walk, top-down with every precedent already translated,
+    does not).  Any other outcome - a foreign exception, another value, a refusal of the short chain - is a violation."""
+    from excel2pycl import E2PyclParserException
+    r = ctx.r
+    for n, form in ((60, '=C{p}+A{i}'), (250, '=C{p}+A{i}'), (40, '=ROUND(IF(AND(A{i}>0,B{i}>0),SUM(C{p},A{i})-B{i},C{p}),2)'), (120, '=ROUND(IF(AND(A{i}>0,B{i}>0),SUM(C{p},A{i})-B{i},C{p}),2)')):
+        cells = {'C1': 100}
+        for i in range(1, n + 1):
+            cells[f'A{i}'] = 1 + i % 3
+            cells[f'B{i}'] = 1
+        for i in range(2, n + 1):
+            cells[f'C{i}'] = form.format(p=i - 1, i=i)
+        spec = wbspec.spec(wbspec.sheet('Main', cells))
+        whole = pipeline.Book(spec, ctx.workdir, name=f'deep{n}')
+        r.count('deep_chains')
+        case = {'spec': {'chain_rows': n, 'formula': form}, 'entry': [0, f'C{n}'], 'graph': 'running total'}
+        if whole.cls is None:
+            report(r, ID, None, case, whole.whole.brief(), 'a loadable class', monitor='translate-acyclic')
+            continue
+        want = pipeline.query(whole.cls, 0, n, 3)
+        t = pipeline.translate(whole.path, entry=pipeline.entry_cell('Main', f'C{n}'))
+        r.ev()
+        r.nt(('deepchain', n, form))
+        long_chain = n >= 100
+        if not t.ok:
+            refused = t.kind == pipeline.LIB_EXC and isinstance(t.exc, E2PyclParserException) and 'nested too deeply' in str(t.exc)
+            report(r, ID, 'KF-C03-deep-chain-entry-refused' if (refused and long_chain) else None, case, t.brief(), 'a slice with the value ' + repr(want.brief()), monitor='translate-acyclic')
+            continue
+        ld = pipeline.load_text(t.value)
+        got = pipeline.query(ld.value, 0, n, 3) if ld.ok else ld
+        if not (want.ok and got.ok and same(want, got)):
+            report(r, ID, None, case, got.brief(), want.brief(), monitor='slice-equals-whole')
+    r.sample({'deep_chains': 'Cn = C(n-1)+An for 60 / 250 rows; Cn = ROUND(IF(AND(..),SUM(C(n-1),An)-Bn,C(n-1)),2) for 40 / 120 rows'})
+
+
 def plan(tier, seed):
     n, parts = (200, 10) if tier == 'quick' else (3000, 30)
     shards = [{'kind': 'dag', 'n': n // parts, 'max': 8 if tier == 'quick' else 14} for _ in range(parts)]
     for rep in range(1 if tier == 'quick' else 12):
         shards.append({'kind': 'cyc', 'rep': rep})
     shards.append({'kind': 'shared'})
+    shards.append({'kind': 'deepchain'})
     return shards
 
 
@@ -510,6 +548,8 @@ def run_shard(shard, ctx):
         return run_dag(ctx, c['spec'], [], 0)
     if shard['kind'] == 'shared':
         return run_shared(ctx)
+    if shard['kind'] == 'deepchain':
+        return run_deepchain(ctx)
     if shard['kind'] == 'dag':
         for i in range(shard['n']):
             spec, formulas = make_graph(rng, shard['max'])
